@@ -35,6 +35,7 @@ type lifeScn struct {
 	Chan    int      `json:"chan,omitempty"` // 0 or 1
 	Watch   int      `json:"watch,omitempty"` // watchdog in ms (default 1500)
 	Burst   bool     `json:"burst,omitempty"` // the calls are started back to back, without letting each one settle
+	SlowFirst int    `json:"slowfirst,omitempty"` // the transport takes this many ms for the first request packet it is given (a slow network write)
 	Ops     []lifeOp `json:"ops"`
 }
 
@@ -149,8 +150,12 @@ func runLife(tr *Tracer, cur *int64, scn *lifeScn) {
 	// the peer: acknowledges channel setups, answers the logout as configured
 	var pmu sync.Mutex
 	var pbuf []byte
+	var slowed int32
 	r.mc.onWrite = func(b []byte) {
 		atomic.AddInt64(&r.wrote, int64(len(b)))
+		if scn.SlowFirst > 0 && len(b) > 8 && b[0] == 15 && atomic.CompareAndSwapInt32(&slowed, 0, 1) {
+			time.Sleep(time.Duration(scn.SlowFirst) * time.Millisecond) // the Write call of this packet returns late
+		}
 		pmu.Lock()
 		defer pmu.Unlock()
 		pbuf = append(pbuf, b...)
@@ -466,6 +471,9 @@ func lifeMain(args []string) error {
 			// transport and ends the reader
 			scns = append(scns, lifeScn{K: k, Answers: true, Ops: []lifeOp{{Op: "cancel", Ctx: "conn"}, {Op: "connclose"}, {Op: "next"}, {Op: "send"}}})
 			scns = append(scns, lifeScn{K: k, Answers: true, Chan: 1, Ops: []lifeOp{{Op: "peer", N: 1}, {Op: "cancel", Ctx: "conn"}, {Op: "connclose"}, {Op: "next"}}})
+			// Close while a send is still inside its transport write
+			scns = append(scns, lifeScn{K: k, Answers: true, Chan: 1, SlowFirst: 200, Ops: []lifeOp{{Op: "send"}, {Op: "close"}, {Op: "next"}}})
+			scns = append(scns, lifeScn{K: k, Answers: true, Chan: 0, SlowFirst: 200, Ops: []lifeOp{{Op: "send"}, {Op: "connclose"}}})
 			// sends with cancelled contexts
 			scns = append(scns, lifeScn{K: k, Answers: true, Ops: []lifeOp{{Op: "send", Ctx: "cancelled"}, {Op: "send"}, {Op: "send", Ctx: "cancelled"}}})
 		}
